@@ -15,6 +15,10 @@ if first < 0:
 else:
     for b in ALPHA[:15]:           # the two shared-line entries appear in the one-line files only (two-line files with them do not finish, probed)
         for nl in (0, 1): cases.append(lit([ALPHA[first], b], nl))
+    # the line AFTER the first one indented / preceded by a blank line (whitespace that does not belong to the first line)
+    for nl in (0, 1): cases.append(lit([ALPHA[first], " libfoo.so"], nl))
+    if first == 0:
+        for nl in (0, 1): cases.append(lit([ALPHA[first], "", "libfoo.so"], nl))
     if mode == "disable" or True:
         for b, c in itertools.product(ALPHA[:9], repeat=2):
             pass
